@@ -230,6 +230,39 @@ def cleanup_after_heavy(c):
 exec(CLEANUP_HISTORY_SRC)  # noqa: S102
 
 
+OPERAND_KEPT_SRC = """
+def pipe_operands_kept(c):
+    # `x | y` builds a new pipeline; x and y stay the pipelines they were.  A pipeline that was an operand of `|`
+    # (on either side, piped with a single pass or with another pipeline) still equals its own passes in sequence.
+    from cirbo.minimization.simplification import MergeDuplicateGates as MD, MergeEquivalentGates as ME, MergeUnaryOperators as MU, RemoveRedundantGates as RRG
+    out = []
+    base = MU() | MD()
+    right = RRG(allow_inputs_removal=True) | MU()
+    bigger = base | right
+    longer = base | RRG()
+    front = MD() | base
+    out.append(('base after being an operand', base.transform(c), MD().transform(MU().transform(c))))
+    out.append(('right operand after being an operand', right.transform(c), MU().transform(RRG(allow_inputs_removal=True).transform(c))))
+    out.append(('base | (pipeline)', bigger.transform(c), MU().transform(RRG(allow_inputs_removal=True).transform(MD().transform(MU().transform(c))))))
+    out.append(('base | pass', longer.transform(c), RRG().transform(MD().transform(MU().transform(c)))))
+    out.append(('pass | base', front.transform(c), MD().transform(MU().transform(MD().transform(c)))))
+    return out
+"""
+exec(OPERAND_KEPT_SRC)  # noqa: S102
+
+
+def operand_kept_check(p, name, c):
+    p.case(("pipe-operands-kept", circ.snapshot(c)[:3]))
+    try:
+        bad = [what for what, whole, seq in pipe_operands_kept(c) if not same_circuit(whole, seq)]  # noqa: F821
+    except Exception as e:  # noqa: BLE001
+        bad = [f"raised {type(e).__name__}: {e}"]
+    if bad:
+        p.violation("pipeline:operand-of-a-pipe-reused", f"on {circ.describe(c)}: differs from sequencing: {bad}",
+                    REPLAY_PRELUDE + circ.circ_src(c) + OPERAND_KEPT_SRC + "\ntry:\n    bad=[w for w,a,b in pipe_operands_kept(c) if not (a==b and circ.netlist_of(a)==circ.netlist_of(b))]\n"
+                    "except Exception as e:\n    bad=[type(e).__name__, str(e)]\nprint(bad)\nsys.exit(1 if bad else 0)\n")
+
+
 def cleanup_history_check(p, name, c):
     if len(c.inputs) > 6:
         return
@@ -337,7 +370,7 @@ def unit(p, item, tier, seed):
     if s % 16 != 0:
         fam = [x for x in fam if x[0].startswith("seeded")]
     for name, c in fam:
-        for fn in (effect_checks, twice_checks, cleanup_history_check, user_pass_checks):
+        for fn in (effect_checks, twice_checks, cleanup_history_check, user_pass_checks, operand_kept_check):
             try:
                 fn(p, name, c)
             except Exception as e:  # noqa: BLE001
